@@ -279,7 +279,10 @@ pub fn run(ctx: &Ctx) -> i32 {
             let drv = std::cell::RefCell::new(EncDriver::new());
             fw::run_random(ctx, 300 + part as u64, per_enc, &strat, st, |(chars, utf16, repl), st| {
                 let src = if *utf16 { Src::Utf16 } else { Src::Utf8 };
-                let text: Vec<u32> = chars.iter().map(|(k, x)| hist_enc::text_char(algo, *utf16, *k, *x)).collect();
+                let mut text: Vec<u32> = Vec::new();
+                for (k, x) in chars {
+                    hist_enc::text_token(algo, *utf16, *k, *x, &mut text);
+                }
                 let h = EncHistory::simple(enc, src, *repl, &text);
                 st.class("random-text");
                 if h.text.len() > 16 {
